@@ -118,7 +118,7 @@ fn replay_one(op: &str, args: &str, o: &Opts) -> String {
             Ok(x) => stext::replay(op, &x),
             Err(e) => format!("(harness-error {e})"),
         },
-        "queens" | "queensbig" | "sudoku" | "clique" | "cliquemodels" => match sx::parse(args) {
+        "queens" | "queensbig" | "queenssols" | "sudoku" | "clique" | "cliquemodels" => match sx::parse(args) {
             Ok(x) => sgen::replay(op, &x, &o.bindir),
             Err(e) => format!("(harness-error {e})"),
         },
